@@ -62,6 +62,10 @@ var tokens = []token{
 	{"invalid-empty", "", false},
 	{"conflict-removed-x", K1 + "=x", false},
 	{"conflict-over-shadowed-y", K1 + "=y", false},
+	// spellings of a resolvable name that are not that name: padded with white space, other case
+	{"padded-resolvable", " " + K1 + "=a", false},
+	{"newline-terminated-resolvable", K2 + "=c\n", false},
+	{"upper-case-resolvable", "VENDOR.COM/k1=a", false},
 }
 
 type Case struct {
@@ -227,7 +231,7 @@ func main() {
 	}
 	rec(nil)
 	r.Rule = fmt.Sprintf("one cache (two directories; resolvable a,b,c,d; x defined twice at the top priority; y defined once low and twice high) x every request list of length 0..%d with repetitions over %d request kinds "+
-		"(3 resolvable, unknown device, unknown vendor, unqualified, missing name, empty string, conflict-removed, conflict-over-shadowed) x %d initial OCI specs incl. nil and one that already holds an entry of the same identity as every edit of the resolvable devices. "+
+		"(3 resolvable, unknown device, unknown vendor, unqualified, missing name, empty string, conflict-removed, conflict-over-shadowed, a resolvable name padded with a blank / ending in a newline / in other case) x %d initial OCI specs incl. nil and one that already holds an entry of the same identity as every edit of the resolvable devices. "+
 		"Oracle: error; returned list == request filtered to unresolvable names (order, multiplicity); OCI spec deep-equal and JSON-identical to its pre-call copy. Distinct by construction; non-trivial = at least one miss or nil spec",
 		maxLen, len(tokens), len(ociNames))
 	r.Assumptions = []string{"every resolvable device's edits could be applied (type and major specified), so a modification would be visible", "which names resolve in this population is cross-checked against the cache at start (exit 2 on disagreement; that rule is C01's subject)"}
